@@ -5,11 +5,13 @@
   rj.dec <variant> <end> <toks>   variant = three 0/1 digits (checked, litChecks, dirCheck);
                                   end = eof|ueof|io|syntax; → t1;t2;…|clean  |err:<class>  | panic
   rj.wn <toks>                → true|false   (Model `WellNested`)
+  rj.accepts <toks>           → true|false   (Spec `RJG.accepts`: grammatical RDF/JSON document)
   Token stream: comma-joined  O o A a N V S<hex> X<kind>;  empty stream = `-`.
   Anonymous blank nodes are printed as `?anon<k>`, k = order of first appearance in the output.
 -/
 import RdfModel.Driver.Wire
 import RdfModel.Model.RdfJson
+import RdfModel.Spec.RdfJsonGrammar
 namespace RdfModel.Driver.RdfJson
 open RdfModel RdfModel.Wire RdfModel.RJ
 
@@ -96,6 +98,9 @@ def handle (op : String) (args : List String) : Option String :=
   | "wn", [toks] => do
     let toks ← parseToks toks
     pure (toString (WellNested toks))
+  | "accepts", [toks] => do
+    let toks ← parseToks toks
+    pure (toString (Spec.RJG.accepts toks))
   | _, _ => none
 
 end RdfModel.Driver.RdfJson
